@@ -586,7 +586,19 @@ fn call(w: &mut World, c: Call, proto: String, out: &mut Out) -> (String, String
             }
         }
     }
-    // range_respected
+    // range_respected: "records taken from periodic multi-record advertisements must also lie within its responsible
+    // distance" is judged on the ADVERTISEMENT's length. Known finding K-x-single-new-skips-range: when exactly one key of
+    // a multi-record list is new, the code takes the single-key fast path and skips the range test — exactly that is
+    // counted as known, everything else is a failure.
+    let advert_len = match &c {
+        Call::Add { list, .. } => list.len(),
+        _ => 0,
+    };
+    if let (Some(_), Some(r)) = (add_h, &w.range) {
+        if advert_len >= 2 && fresh_in.len() == 1 && fast && &w.d(fresh_in[0].0) > r {
+            out.count("known:K-x-single-new-skips-range");
+        }
+    }
     if let (Some(h), Some(r)) = (add_h, &w.range) {
         if fresh_in.len() != 1 {
             for e in ta.iter().filter(|e| e.h == h && !in_tb(e.k, e.t, e.h)) {
@@ -861,6 +873,8 @@ fn corpus() -> Vec<&'static str> {
         "new 2", "key 0", "key 1", "add 0 0:0", "add 1 0:0", "add 1 0:2", "put 0 0", "add 1 0:0",
         // range boundary: a multi-key list with a key exactly on, just inside and just outside the range
         "new 3", "key 0", "key 1", "key 2", "key 3", "range 0", "add 0 0:0,1:0", "add 0 2:0", "next",
+        // K-x: a multi-record list with exactly one new key, out of range: fetched at once (the witness of the known finding)
+        "new 6", "key 0", "key 1", "key 2", "range 0", "local 0 0", "local 1 0", "add 0 0:0,1:0,2:0",
         // timeout: holder 0 never answers; its queued entries go and it is reported once
         "new 4", "key 0", "key 1", "key 2", "key 3", "add 0 0:0", "add 0 1:0,2:0,3:0", "age 19", "next", "age 1", "add 0 1:0,2:0", "next", "age 20", "next",
         // pending timeout of queued entries
